@@ -140,6 +140,39 @@ func execC03(seg []Ev) []Ev {
 			oc, d := guarded(func() { res, err = fn.Calculate(args, c06mgr(toStr(in["mgr"]))) })
 			det = d
 			e["outcome"] = valErr(oc, res != nil, err)
+		case "userfunc":
+			// a user-registered function that fails in one of several ways, called through an expression
+			e["kind"] = "valerr"
+			how := toStr(in["kind2"])
+			var res *variants.Variant
+			var err error
+			oc, d := guarded(func() {
+				calc := calculator.NewExpressionCalculator()
+				calc.DefaultFunctions().Add(functions.NewDelegatedFunction("Boom", func(p []*variants.Variant, o variants.IVariantOperations) (*variants.Variant, error) {
+					switch how {
+					case "panic-string":
+						panic("boom")
+					case "panic-int":
+						panic(42)
+					case "panic-error":
+						panic(fmt.Errorf("boom"))
+					case "nil-deref":
+						var v *variants.Variant
+						return variants.VariantFromInteger(v.AsInteger()), nil
+					case "index":
+						return p[len(p)+3], nil
+					case "error":
+						return nil, fmt.Errorf("plain failure")
+					}
+					return variants.VariantFromInteger(1), nil
+				}))
+				if err = calc.SetExpression(input); err != nil {
+					return
+				}
+				res, err = calc.Evaluate()
+			})
+			det = d
+			e["outcome"] = valErr(oc, res != nil, err)
 		case "operator":
 			e["kind"] = "valerr"
 			pool := valuePool(true)
@@ -203,6 +236,25 @@ func genC03(g *Gen) {
 			run("operator and function forms x boundary assignments", Ev{"api": "expression", "input": cps(f), "vars": anyL(as)})
 		}
 	}
+	for _, how := range []string{"panic-string", "panic-int", "panic-error", "nil-deref", "index", "error", "ok"} {
+		for _, x := range []string{"Boom()", "Boom(1)", "1 + Boom(2, 3)", "Min(Boom(1), 2)", "boom(1) IS NULL"} {
+			run("user-registered failing functions", Ev{"api": "userfunc", "kind2": how, "input": cps(x)})
+		}
+	}
+	// every token string up to a bound over the representative token vocabulary, as text
+	var rec func(cur []string)
+	rec = func(cur []string) {
+		if len(cur) > 0 {
+			run("all token strings<=3 (as text)", Ev{"api": "expression", "input": cps(strings.Join(cur, " ")), "vars": anyL(c03assignments[1])})
+		}
+		if len(cur) == 3 {
+			return
+		}
+		for _, t := range exprVocabCore {
+			rec(append(append([]string{}, cur...), t))
+		}
+	}
+	rec(nil)
 	// (2) every string up to a bound over the significant characters
 	exprAlpha := []rune{'a', '1', '.', '-', '/', '*', '\'', '"', '<', '=', '(', ')', '[', ']', ',', ' ', 0xe9, 0x1F600, '+', '^'}
 	ln := g.Pick(3, 4)
